@@ -141,7 +141,7 @@ let handle line =
         let kind = next toks in let u = int_of_string (next toks) in let i = int_of_string (next toks) in
         let d = List.nth user i in
         (d, if kind = "b" then Stdlib.fst (builder_definition v d (nat_of_int u)) else default_definition v d)) in
-    (match resolve_clashes v user fs O with
+    (match resolve_clashes v user fs with
      | None -> "NONE"
      | Some l -> String.concat " " (List.map (fun df -> hx (def_header_fun v df)) l))
   | "G" -> let v = variant (next toks) in let n = int_of_string (next toks) in
